@@ -166,7 +166,15 @@ def shard(p):
             if rng.random() < 0.03:
                 # one pumped word: a short unit or pair of units repeated 8-40 times (NsNsNs...): fixed-size buffers per word
                 short = [e for e in single if len(e["word"]) <= 2 and e["bare"]]
-                base = [rng.choice(short) for _ in range(rng.choice([1, 2, 2]))]
+                for _try in range(8):
+                    base = [rng.choice(short) for _ in range(rng.choice([1, 2, 2]))]
+                    bw = "".join(e["word"] for e in base)
+                    # (only bases whose repetitions have few segmentations: the oracle enumerates every reading of the word, and a base
+                    # with interval-valued or many-valued pieces has exponentially many - a monitor cost, not a property of the tool)
+                    if len(R.readings(bw * 3)) <= 8 and len(R.readings(bw * 5)) <= 16:
+                        break
+                else:
+                    continue
                 es = base * rng.choice([8, 9, 12, 16, 17, 20, 33][: 7 if len(base) == 1 else 5])
             elif len({e["key"] for e in es}) != k:
                 continue
